@@ -697,9 +697,9 @@ fn generate_threads(seed: u64, index: u64, scale: u64) -> Program {
         let keep = 3 + r.below(14 * scale) as usize;
         ops.truncate(keep);
         // a third of the threads also have a callback panic injected into their own program
-        let faults = if r.chance(1, 3) {
-            let kind = *r.pick(&[FaultKind::Trace, FaultKind::Trace, FaultKind::TraceEdge, FaultKind::Finalize, FaultKind::Drop]);
-            vec![Fault { kind, k: r.below(6) as u32 }]
+        let faults = if r.chance(1, 2) {
+            let kind = *r.pick(&[FaultKind::Trace, FaultKind::Trace, FaultKind::Trace, FaultKind::TraceEdge, FaultKind::Finalize, FaultKind::Drop]);
+            vec![Fault { kind, k: r.below(5) as u32 }]
         } else {
             vec![]
         };
